@@ -303,36 +303,62 @@ theorem kinds_parts {n : Ast} (hs : shapeHere n = true) :
     ((n.kind == "Try" || n.kind == "TryExcept") = true → okAnd (getNodeList n "handlers") (allKind "ExceptHandler") = true) ∧
     ((n.kind == "ListComp" || n.kind == "GeneratorExp" || n.kind == "DictComp" || n.kind == "SetComp") = true →
       okAnd (getNodeList n "generators") (allKind "comprehension") = true) ∧
-    ((n.kind == "Import" || n.kind == "ImportFrom") = true → okAnd (getNodeList n "names") (allKind "alias") = true) := by
+    ((n.kind == "Import" || n.kind == "ImportFrom") = true → okAnd (getNodeList n "names") (allKind "alias") = true ∧
+      okAnd (aliasEnds n) (allKind "_AliasEnd") = true) := by
   have h := (shape_parts hs).2.2
   simp only [kindsOK, Bool.and_eq_true] at h
-  obtain ⟨⟨⟨⟨⟨h1, h2⟩, h3⟩, h4⟩, h5⟩, h6⟩ := h
+  obtain ⟨⟨⟨⟨⟨⟨h1, h2⟩, h3⟩, h4⟩, h5⟩, h6⟩, h7⟩ := h
   refine ⟨?_, ?_, ?_, ?_, ?_, ?_⟩ <;> intro hk
   · rw [if_pos hk] at h1; exact h1
   · rw [if_pos hk] at h2; exact h2
   · rw [if_pos hk] at h3; exact h3
   · rw [if_pos hk] at h4; exact h4
   · rw [if_pos hk] at h5; exact h5
-  · rw [if_pos hk] at h6; exact h6
+  · rw [if_pos hk] at h6 h7; exact ⟨h6, h7⟩
 
 /-- the aliases of an import statement hold no read -/
 theorem aliases_reached {n : Ast} {prog : Prog} {names : List Ast} (hall : n.all shapeHere = true)
     (hnames : getNodeList n "names" = .ok names) (hk : (n.kind == "Import" || n.kind == "ImportFrom") = true)
     (hs : shapeHere n = true) : ∀ c ∈ names, Reached prog c := by
   intro c hc
-  obtain ⟨names', hn', hkind⟩ := okAnd_elim ((kinds_parts hs).2.2.2.2.2 hk)
+  obtain ⟨names', hn', hkind⟩ := okAnd_elim ((kinds_parts hs).2.2.2.2.2 hk).1
   rw [hnames] at hn'; injection hn' with hn'; subst hn'
   have hck := allKind_mem hkind hc
   have hsub := getNodeList_sub hnames c hc
   exact reached_leaf hsub.node (by rw [hck]; decide)
     (leaf_children (child_shape hsub hall) (by rw [hck]; decide))
 
+/-- nor do the nodes carrying the end positions of the aliases -/
+theorem aliasEnds_reached {n : Ast} {prog : Prog} {ends : List Ast} (hall : n.all shapeHere = true)
+    (hends : getNodeList n "alias_ends" = .ok ends) (hk : (n.kind == "Import" || n.kind == "ImportFrom") = true)
+    (hs : shapeHere n = true) : ∀ c ∈ ends, Reached prog c := by
+  intro c hc
+  obtain ⟨ends', he', hkind⟩ := okAnd_elim ((kinds_parts hs).2.2.2.2.2 hk).2
+  have : ends' = ends := by
+    unfold aliasEnds optNodeList at he'
+    split at he'
+    · rw [hends] at he'; injection he' with he'; exact he'.symm
+    · rename_i hnone
+      simp only [getNodeList, Ast.get, hnone, bind, Except.bind] at hends
+      cases hends
+  subst this
+  have hck := allKind_mem hkind hc
+  have hsub := getNodeList_sub hends c hc
+  exact reached_leaf hsub.node (by rw [hck]; decide)
+    (leaf_children (child_shape hsub hall) (by rw [hck]; decide))
+
+theorem aliasEnds_field {n : Ast} {v : Ast} {ends : List Ast} (hv : n.field? "alias_ends" = some v)
+    (h : aliasEnds n = .ok ends) : getNodeList n "alias_ends" = .ok ends := by
+  unfold aliasEnds optNodeList at h
+  rw [hv] at h
+  exact h
+
 theorem compileImport_covers {n prog} (hn : n.isNode = true) (hk : n.kind = "Import") (hall : n.all shapeHere = true)
     (h : compileImport n = .ok prog) : Covers n prog := by
   have hs := shapeHere_of_all hn hall
   obtain ⟨hf, hlen⟩ := shape_fields hs (by rw [hk]; rfl)
   simp only [compileImport, bind_ok_iff] at h
-  obtain ⟨loc, _, start, _, names, h3, _⟩ := h
+  obtain ⟨loc, _, start, _, names, h3, ends, h4, _⟩ := h
   obtain ⟨w3, e3, c3⟩ := getNodeList_eq h3
   have hr := aliases_reached (prog := prog) hall h3 (by simp [hk]) hs
   apply covers_of_children hn (not_load_of_kind (by rw [hk]; decide))
@@ -340,12 +366,17 @@ theorem compileImport_covers {n prog} (hn : n.isNode = true) (hk : n.kind = "Imp
   | node kd p ns vs =>
     simp only [Ast.fieldNames, Ast.vals] at hf hlen
     subst hf
-    rcases vs with _ | ⟨v1, _ | ⟨v2, vs⟩⟩ <;> simp at hlen
-    simp [Ast.field?, Ast.fieldNames, Ast.vals, lookupField] at e3
-    subst e3
+    rcases vs with _ | ⟨v1, _ | ⟨v2, _ | ⟨v3, vs⟩⟩⟩ <;> simp at hlen
+    have h4' := aliasEnds_field (v := v1) (by simp [Ast.field?, Ast.fieldNames, Ast.vals, lookupField]) h4
+    obtain ⟨w4, e4, c4⟩ := getNodeList_eq h4'
+    have hr2 := aliasEnds_reached (prog := prog) hall h4' (by simp [hk]) hs
+    simp [Ast.field?, Ast.fieldNames, Ast.vals, lookupField] at e3 e4
+    subst e3 e4
     intro c hc
-    simp [Ast.children, Ast.vals, c3] at hc
-    exact hr c hc
+    simp [Ast.children, Ast.vals, c3, c4] at hc
+    rcases hc with hc | hc
+    · exact hr2 c hc
+    · exact hr c hc
   | _ => cases hn
 
 theorem compileImportFrom_covers {n prog} (hn : n.isNode = true) (hk : n.kind = "ImportFrom") (hall : n.all shapeHere = true)
@@ -357,7 +388,7 @@ theorem compileImportFrom_covers {n prog} (hn : n.isNode = true) (hk : n.kind = 
   have hsc2 : ∀ v, n.field? "level" = some v → childrenOfVal v = [] :=
     fun v hv => scalar_of_shape hs hk (by simp [scalarFields]) hv
   simp only [compileImportFrom, bind_ok_iff] at h
-  obtain ⟨loc, _, start, _, names, h3, _⟩ := h
+  obtain ⟨loc, _, start, _, names, h3, ends, h4, _⟩ := h
   obtain ⟨w3, e3, c3⟩ := getNodeList_eq h3
   have hr := aliases_reached (prog := prog) hall h3 (by simp [hk]) hs
   apply covers_of_children hn (not_load_of_kind (by rw [hk]; decide))
@@ -365,14 +396,19 @@ theorem compileImportFrom_covers {n prog} (hn : n.isNode = true) (hk : n.kind = 
   | node kd p ns vs =>
     simp only [Ast.fieldNames, Ast.vals] at hf hlen
     subst hf
-    rcases vs with _ | ⟨v1, _ | ⟨v2, _ | ⟨v3, _ | ⟨v4, vs⟩⟩⟩⟩ <;> simp at hlen
+    rcases vs with _ | ⟨v0, _ | ⟨v1, _ | ⟨v2, _ | ⟨v3, _ | ⟨v4, vs⟩⟩⟩⟩⟩ <;> simp at hlen
+    have h4' := aliasEnds_field (v := v0) (by simp [Ast.field?, Ast.fieldNames, Ast.vals, lookupField]) h4
+    obtain ⟨w4, e4, c4⟩ := getNodeList_eq h4'
+    have hr2 := aliasEnds_reached (prog := prog) hall h4' (by simp [hk]) hs
     have c1 := hsc1 v1 (by simp [Ast.field?, Ast.fieldNames, Ast.vals, lookupField])
     have c2 := hsc2 v3 (by simp [Ast.field?, Ast.fieldNames, Ast.vals, lookupField])
-    simp [Ast.field?, Ast.fieldNames, Ast.vals, lookupField] at e3
-    subst e3
+    simp [Ast.field?, Ast.fieldNames, Ast.vals, lookupField] at e3 e4
+    subst e3 e4
     intro c hc
-    simp [Ast.children, Ast.vals, c1, c2, c3] at hc
-    exact hr c hc
+    simp [Ast.children, Ast.vals, c1, c2, c3, c4] at hc
+    rcases hc with hc | hc
+    · exact hr2 c hc
+    · exact hr c hc
   | _ => cases hn
 
 theorem compileGlobal_covers {n prog} (hn : n.isNode = true) (hk : n.kind = "Global") (hs : shapeHere n = true) :
